@@ -465,3 +465,33 @@ Proof.
   - apply Hv. exact Hi0.
   - apply Hv. rewrite Hi1. apply Nat.mod_upper_bound. destruct Hg as [_ [Hn _]]. lia.
 Qed.
+
+(* ------------------------------------------------------------------ *)
+(* track points: periodic longitude axis inside an N-d interpolation    *)
+(* ------------------------------------------------------------------ *)
+
+(* a periodic axis always contributes unit weights (1-t, t): no target is out of range *)
+Lemma axis_entry_unit_periodic : forall g P x, pgrid g P ->
+  unit_weights (enclosing g x (Some P),
+                (w_lo (frac_n g x (enclosing g x (Some P)) (Some P) false),
+                 w_hi (frac_n g x (enclosing g x (Some P)) (Some P) false))).
+Proof.
+  intros g P x Hg. destruct (periodic_bracket g P x Hg) as [t [E [Ht _]]].
+  unfold frac_n. rewrite E. exists t. split; [lra|reflexivity].
+Qed.
+
+(* gridded (latitude, longitude) data at a track point: latitude inside its grid, ANY longitude
+   (any number of periods away, also in the bin across the antimeridian): finite data give a
+   value between the smallest and the largest data value *)
+Lemma track_point_lat_lon : forall glat glon P data lat lon i lo hi,
+  asc glat -> (i + 1 < length glat)%nat -> rnth glat i <= lat < rnth glat (i + 1) ->
+  pgrid glon P ->
+  (forall idx, exists v, nd_get [length glat; length glon] data idx = Some v /\ lo <= v <= hi) ->
+  exists v, interp_nd [glat; glon] [None; Some P] data [lat; lon] false = Some v /\ lo <= v <= hi.
+Proof.
+  intros glat glon P data lat lon i lo hi Ha Hi Hlat Hg Hget.
+  unfold interp_nd, nd_corner_list, nd_axes. cbn [combine map2 map].
+  apply (interp_nd_convex _ (nd_get [length glat; length glon] data) lo hi); [|exact Hget].
+  constructor; [apply (axis_entry_unit glat lat i Ha Hi Hlat)|].
+  constructor; [apply axis_entry_unit_periodic; exact Hg|constructor].
+Qed.
